@@ -114,12 +114,29 @@ def generate(rng, tier, run):
     ops.append(['root', root_fields()])
     if rng.random() < 0.3:
         ops[0][1]['@subclass'] = True
+        ops[0][1]['sim_flag'] = rng.randrange(1, 3)
+        if rng.random() < 0.6:
+            # ordinary use of plain parsing states earlier in the same process
+            ops.insert(0, ['base_use'])
     other_fields = [k for k in DOM if k not in MATH_CONE]
     while len(ops) < n_ops:
         x = rng.random()
         i = rng.randrange(100)
         if x < 0.05:
             ops.append(['root', root_fields()])
+        elif x < 0.07:
+            ops.append(['base_use'])
+        elif x < 0.12:
+            # two children of one parent that change the same field to different values,
+            # then a grandchild of the first that leaves that field alone
+            f = rng.choice(sorted(DOM))
+            vals = list(DOM[f])
+            rng.shuffle(vals)
+            n0 = sum(1 for o in ops if o[0] in ('root', 'derive', 'derive_delta'))
+            ops.append(['derive', i, {f: vals[0]}])
+            ops.append(['derive', i, {f: vals[1 % len(vals)]}])
+            g = rng.choice([k for k in sorted(DOM) if k != f])
+            ops.append(['derive', n0, {g: rng.choice(DOM[g])}])
         elif x < 0.12:
             ops.append(['probe', i, ''.join(rng.choice(ALPHABET) for _ in range(rng.randint(1, 8)))])
         elif batch == 'rejected' and x < 0.27:
@@ -224,15 +241,28 @@ def decode(field, v):
     return v
 
 
-def plain_fields(ps):
+def _plain_items(items):
     out = {}
     names = {id(v): k for k, v in contexts().items() if v is not None}
-    for k, v in ps.get_fields().items():
+    for k, v in items:
         if k == 'latex_context':
             out[k] = 'none' if v is None else names.get(id(v), '<foreign context>')
         else:
             out[k] = D._plain(v)
     return out
+
+
+def plain_fields(ps):
+    """The state's fields, read attribute by attribute (every name in its class's
+    _fields); get_fields() must report exactly these."""
+    direct = _plain_items((f, getattr(ps, f, '<missing attribute>')) for f in type(ps)._fields)
+    reported = _plain_items(ps.get_fields().items())
+    if direct != reported:
+        k = sorted(set(direct) ^ set(reported)) or [k for k in direct if direct[k] != reported.get(k)]
+        raise Violation('get_fields-reports-every-field', op_index=CUR['opi'], field=k[0],
+                        observed=reported.get(k[0], '<absent from get_fields()>'),
+                        expected=direct.get(k[0], '<not an attribute>'))
+    return direct
 
 
 def predict_fields(parent_plain, changes):
@@ -302,6 +332,7 @@ def parse_dump(ps, s, tolerant):
 
 
 _walker_cache = {}
+CUR = {'opi': 0}
 
 
 def derive_by_delta(ps, how, delim, changes):
@@ -419,9 +450,16 @@ def execute(program):
     try:
         for opi, op in enumerate(program['ops']):
             kind = op[0]
+            CUR['opi'] = opi
             before = [plain_fields(st['ps']) for st in live]
             outcome = 'ok'
-            if kind == 'root':
+            if kind == 'base_use':
+                # somebody else in the process uses plain ParsingState objects
+                q = ParsingState(in_math_mode=True, math_mode_delimiter='$').sub_context(enable_comments=False)
+                q.get_fields()
+                token_dump(q, 'a$b%c')
+                stats.inc('op:base_use')
+            elif kind == 'root':
                 if len(live) >= MAX_LIVE:
                     outcome = 'skipped'
                 else:
@@ -518,6 +556,12 @@ def execute(program):
                         b = compare_with_fresh(child, opi, len(live), base_strings)
                     # parent must still behave as when it was created
                     recheck_behaviour(opi, j, (opi, 3))
+                    # ... and so must the state derived from the same parent before this one
+                    sib = parent.get('last_child')
+                    if sib is not None and sib < len(live):
+                        recheck_behaviour(opi, sib, (opi + 1, 3))
+                        stats.inc('probe:sibling-rechecked')
+                    parent['last_child'] = len(live)
                     step = [int('latex_group_delimiters' in effective),
                             int(any(k in effective for k in MATH_CONE[2:])),
                             int(any(k in effective for k in MATH_CONE[:2]))]
